@@ -350,6 +350,8 @@ def logit_sets(M, n, seed):
     out["peaked"] = np.where((k + i) % 2 == 0, 30.0, -30.0) + (k % 5) * 0.25
     g = np.random.Generator(np.random.PCG64(1000 + seed))  # builds a value alphabet only
     out["seeded"] = g.normal(size=(M, n)) * 3.0
+    # rows on very different levels (a per-row softmax is invariant to a row offset; a batch-wide shift is not)
+    out["row-levels"] = out["ramp"] + np.array([0.0, -250.0, 300.0, -90.0, 120.0])[np.arange(M) % 5][:, None]
     return {a: v.astype(np.float32) for a, v in out.items()}
 
 
@@ -394,7 +396,7 @@ def work_ce(item, col):
         # vacuity: how often a one-hot (nearest edge) target would give another loss
         onehot = -lp[idx, np.where(w >= 0.5, j, j - 1)]
         col.outcome("ce_cases_where_a_one_hot_target_would_differ", int((np.abs(onehot - ref) > tol).sum()))
-    col.sample(dict(function="two_hot_cross_entropy_loss", bins=spec["tag"], n_targets=M, logit_sets=4))
+    col.sample(dict(function="two_hot_cross_entropy_loss", bins=spec["tag"], n_targets=M, logit_sets=5))
 
 
 # ------------------------------------------------------------------------------------------------
